@@ -12,7 +12,7 @@ line and return 0 only on the injected KeyboardInterrupt.
 import contextlib
 import io
 
-from .. import boot, canon, gen, lang, badsrc, monitors
+from .. import boot, canon, gen, lang, badsrc, monitors, history
 from ..proggen import ProgGen
 from ..rng import Streams, weighted, RealRandom
 from ..world import real_eval, classify
@@ -32,7 +32,7 @@ ASSUMPTIONS = ['(b) is a statement over inputs: the simulator contributes the by
                'a stray token or a blind truncation may leave a valid program: such texts are only required not to raise anything but ParserError from parse()']
 REAL = ['smartquery.* (lexer, PLY parser, evaluator, builtins, repl loop)']
 STUB = ['prompt_toolkit.PromptSession (scripted line source)', 'stdout (captured)']
-REACH_PROBES = ('opener', 'premature_end', 'unbalanced_open', 'unbalanced_close', 'illegal_char', 'unterminated_string', 'reserved_word',
+REACH_PROBES = ('opener', 'operator_newline', 'premature_end', 'unbalanced_open', 'unbalanced_close', 'illegal_char', 'unterminated_string', 'reserved_word',
                 'undefined_variable', 'undefined_variable_compound', 'undefined_function', 'missing_key', 'index_out_of_range',
                 'pop_empty', 'compound_index_missing', 'size_cap', 'op_budget', 'unicode_soup', 'repl_session', 'inside_lambda',
                 'list_names_lexical')
@@ -105,6 +105,8 @@ def generate(seed, tier):
     ops = []
     env = {'l': 'list', 'd': 'dict', 's': 'str', 'x': 'num'}
     for _ in range(rc.randint(6, 30)):
+        if rf.random() < 0.08:
+            ops.append(dict(history.noise_op(rf), kind_='noise'))
         k = weighted(ro, [('bad_source', 5), ('runtime', 6), ('unicode', 2), ('ok', 1.5)])
         if k == 'bad_source':
             g = ProgGen(ro, env, max_depth=ro.choice([1, 2, 3]), illtyped=0.0)
@@ -121,7 +123,7 @@ def generate(seed, tier):
     # the same text submitted again (through parse or eval): a failure is a failure every time
     for _ in range(rc.randint(0, 4)):
         prev = ro.choice(ops)
-        if prev['kind'] != 'ok':
+        if prev['op'] != 'noise' and prev['kind'] != 'ok':
             again = dict(prev)
             if prev['op'] in ('parse', 'eval') and prev['kind'] not in LISTED_RUNTIME:
                 again['op'] = ro.choice(['parse', 'eval'])
@@ -129,7 +131,7 @@ def generate(seed, tier):
     return {'world': {'repl': repl, 'real_constructor': rc.random() < 0.1, 'cache': {'kind': 'dict'} if rc.random() < 0.4 else None}, 'ops': ops}
 
 
-SURELY_INVALID = ('premature_end', 'unbalanced_open', 'unbalanced_close', 'illegal_char', 'unterminated_string', 'reserved_word', 'opener')
+SURELY_INVALID = ('premature_end', 'unbalanced_open', 'unbalanced_close', 'illegal_char', 'unterminated_string', 'reserved_word', 'opener', 'operator_newline')
 LISTED_RUNTIME = ('undefined_variable', 'undefined_variable_compound', 'undefined_function', 'missing_key', 'index_out_of_range',
                   'pop_empty', 'compound_index_missing', 'size_cap', 'op_budget')
 LEXICAL = ('illegal_char', 'unterminated_string')
@@ -154,8 +156,12 @@ def execute(case, ctx):
     from ..seams import make_cache
     parser = boot.fresh_parser(make_cache(case['world'].get('cache')))
     kinds_judged = set()
+    noise = {}
     for step, op in enumerate(case['ops']):
         ctx.step = step
+        if op['op'] == 'noise':
+            history.do_noise(parser, op, noise, ctx)
+            continue
         ctx.op_kind(op['op'] + ':' + op['kind'])
         src = op['src']
         exc = None
@@ -234,7 +240,7 @@ def execute(case, ctx):
 def _repl_session(case, ctx):
     import prompt_toolkit
     import smartquery.repl as repl_mod
-    lines = [op['src'] for op in case['ops']]
+    lines = [op['src'] for op in case['ops'] if op['op'] != 'noise']
     feed = list(lines)
     prompts = []
 
